@@ -215,6 +215,20 @@ def _facts(repo: Repo, f: Func) -> Set[str]:
     g = CFG(f.node)
     pm = parents_map(f.node)
     facts = set()
+    import re
+
+    local_arrays = set()
+    for n in walk_no_nested(f.node):
+        if isinstance(n, ast.Assign):
+            for t in n.targets:
+                if isinstance(t, ast.Name):
+                    local_arrays.add(t.id)
+    local_arrays -= set(f.params)
+
+    def canon_guard(txt: str) -> str:
+        # the size of the row's support is spelled through whichever per-row array is at hand
+        return re.sub(r"\b(%s)\.shape\[0\]" % "|".join(sorted(map(re.escape, local_arrays))), "ROW.shape[0]", txt) if local_arrays else txt
+
     for c in repo.calls_in(f):
         tg = [t for t in repo.resolve_call(f, c) if isinstance(t, Func)]
         name = None
@@ -227,8 +241,8 @@ def _facts(repo: Repo, f: Func) -> Set[str]:
             continue
         st = enclosing_stmt(c, pm)
         nid = g.node_for(st)
-        guards = sorted("%s%s" % ("" if lab in ("true", "iter") else "not ", norm(g.nodes[t].ast)) for t, lab in g.guards_of(nid)
-                        if g.nodes[t].kind == "test" and any(k in norm(g.nodes[t].ast) for k in ("spherical_vectors", "row_sum", "reference_vectors.shape")))
+        guards = sorted("%s%s" % ("" if lab in ("true", "iter") else "not ", canon_guard(norm(g.nodes[t].ast))) for t, lab in g.guards_of(nid)
+                        if g.nodes[t].kind == "test")
         facts.add("%s | %s" % (name, "; ".join(guards)))
     return facts
 
